@@ -3043,11 +3043,25 @@ evhttp_make_request(struct evhttp_connection *evcon,
     struct evhttp_request *req,
     enum evhttp_cmd_type type, const char *uri)
 {
+	const unsigned char *cp;
+
 	/* We are making a request */
 	req->kind = EVHTTP_REQUEST;
 	req->type = type;
 	if (req->uri != NULL)
 		mm_free(req->uri);
+	req->uri = NULL;
+	/* An empty target or one with CR, LF or another control character
+	 * does not give "method SP target SP version" on the wire. */
+	for (cp = (const unsigned char *)uri; *cp != '\0'; ++cp) {
+		if (*cp < ' ' || *cp == 0x7f)
+			break;
+	}
+	if (*uri == '\0' || *cp != '\0') {
+		event_warnx("%s: invalid request target", __func__);
+		evhttp_request_free_auto(req);
+		return (-1);
+	}
 	if ((req->uri = mm_strdup(uri)) == NULL) {
 		event_warn("%s: strdup", __func__);
 		evhttp_request_free_auto(req);
